@@ -414,10 +414,81 @@ let c15 file =
     | "E" :: _ -> ()
     | _ -> ()) (read_lines file)
 
+(* ---------------------------------------------------------------- packet decoder (C01/C02/C05) *)
+let hex_of_f32s (l : f32 list) =
+  if l = [] then "-" else begin
+    let b = Buffer.create 4096 in
+    List.iter (fun x -> Buffer.add_string b (Printf.sprintf "%08x" (iz (encode_b32 x)))) l;
+    Buffer.contents b end
+let pd file =
+  let hs = ref h_init and ds : dsetup option ref = ref None and dec = ref None and half = ref 0 and seqno = ref 0 in
+  let cfg_of (i : ident) = { bs0 = i.i_bs0; bs1 = i.i_bs1; hs = zi !half } in
+  let hv = function HOk -> "OK" | HNotVorbis -> "ENOTVORBIS" | HBadHeader -> "EBADHEADER" | HVersion -> "EVERSION" | HFault -> "EFAULT" in
+  List.iter (fun line ->
+    match split line with
+    | "case" :: k :: _ -> hs := h_init; ds := None; dec := None; half := 0; seqno := 0; Printf.printf "case %s\n" k
+    | ["end"] -> ()
+    | ["hdr"; bos; h] ->
+        let (v, s') = headerin !hs (bos = "1") (bytes_of_hex h) in
+        hs := s'; Printf.printf "hdr %s\n" (hv v)
+    | ["init"] ->
+        if !ds <> None then print_endline "init skipped"
+        else begin
+          match !hs.h_ident, !hs.h_setup with
+          | Some i, Some st ->
+              (match synthesis_init i st with
+               | Some d -> ds := Some d; dec := Some (dec_init (cfg_of i)); print_endline "init 0"
+               | None ->
+                   (* abort_books: the static books are gone; a later init fails as well *)
+                   hs := { !hs with h_setup = Some { st with s_books = List.map (fun b -> { b with b_lengths = [zi 1; zi 1; zi 1] }) st.s_books } };
+                   print_endline "init 1")
+          | _ -> print_endline "init 1"
+        end
+    | (("pkt" | "trk") as op) :: h :: gran :: eos :: rest ->
+        (match !ds, !dec with
+         | Some d, Some dc ->
+             let spec = (op = "pkt") && (match rest with x :: _ -> x = "1" | [] -> false) in
+             let pkt = bytes_of_hex h in
+             let o = synthesis d pkt in
+             let sq = !seqno in incr seqno;
+             (match o.po_verdict with
+              | PNotAudio -> Printf.printf "%s ENOTAUDIO\n" op
+              | PBadPacket -> Printf.printf "%s EBADPACKET\n" op
+              | POk ->
+                  Printf.printf "%s OK %d %d %d %d %d\n" op (iz o.po_mode) (iz o.po_W) (iz o.po_lW) (iz o.po_nW) (if op = "trk" then -1 else iz o.po_left);
+                  if spec then List.iteri (fun c co ->
+                    match co with
+                    | CSpectrum v -> Printf.printf "ch %d %s\n" c (hex_of_f32s v)
+                    | CFloor0 (a, l, r) -> Printf.printf "f0 %d %d %s %s\n" c (iz a) (hex_of_f32s l) (hex_of_f32s r)) o.po_chans;
+                  let c = cfg_of d.ds_ident in
+                  let blk = { k_W = (iz o.po_W = 1); k_gran = zi (int_of_string gran); k_seq = zi sq; k_eof = (eos = "1"); k_pcm = (op = "pkt") } in
+                  let (rc, s1) = dec_blockin c dc blk in
+                  let cnt = iz (dec_pcmout s1) in
+                  let cnt = if cnt < 0 then 0 else cnt in
+                  let (_, s2) = dec_read s1 (zi cnt) in
+                  dec := Some s2;
+                  Printf.printf "cnt %d %d %d\n" (iz rc) cnt (iz s2.d_gran))
+         | _ -> Printf.printf "%s skipped\n" op)
+    | ["restart"] ->
+        (match !ds, !dec with
+         | Some d, Some dc -> dec := Some (dec_restart (cfg_of d.ds_ident) dc); seqno := 0; print_endline "restart 0"
+         | _ -> print_endline "restart skipped")
+    | ["half"; fl] ->
+        (match !hs.h_cleared, !hs.h_ident with
+         | true, _ -> Printf.printf "half -1 0\n"
+         | false, i ->
+             let bs0 = (match i with Some i -> iz i.i_bs0 | None -> 0) in
+             if bs0 <= 64 && fl <> "0" then Printf.printf "half -1 %d\n" !half
+             else begin half := (if fl <> "0" then 1 else 0); Printf.printf "half 0 %d\n" !half end)
+    | ["clear"] -> ds := None; dec := None; print_endline "clear"
+    | ["reinfo"] -> hs := h_init; ds := None; dec := None; half := 0; print_endline "reinfo"
+    | _ -> ()) (read_lines file)
+
 let () =
   match Array.to_list Sys.argv with
   | [_; "c14"; f] -> c14 f
   | [_; "c15"; f] -> c15 f
+  | [_; "pd"; f] -> pd f
   | [_; "vf"; f] -> vfmode f
   | [_; "c17"; f] -> c17 f
   | [_; "c11"; f] -> c11 f
